@@ -148,6 +148,8 @@ def run(ctx: Ctx) -> None:
     acct_rule(ctx, "R11.acct", only=lambda f: f.name == "read_instruction")
     hit_rule(ctx, "R11.hit")
     load_rules(ctx, "R11.load", icache_only=True)
+    from .c10 import perset_rule
+    perset_rule(ctx, "R11.perset")
 
     r = ctx.rule("R11.deleg", "the cache system delegates program storage to the lower instruction memory")
     for name in ("instruction_at_address", "has_instructions", "get_representation", "get_address_range",
